@@ -552,15 +552,15 @@ func c12Run(c lib.Case, env *lib.Env) lib.Result {
 
 func init() {
 	lib.Register(&lib.Property{
-		ID:    "C12",
-		Level: "exploration",
-		Rule: "every execution of the real bsdiff DiffContext.Do is monitored: controls recorded from WriteMessageFunc are checked for a single trailing Eof and length accounting, applied by a reference applier, by the real PatchContext.Patch (through lrufile) and, from every control j (16 sampled above 64 controls), by a fresh IndividualPatchContext started at the saved old offset. Exhaustive: all (old,new) over alphabet 2 with lengths 0..6 and alphabet 3 with lengths 0..4 for partitions {0,1,2,3,5,8,16} (thorough: 0..16, plus alphabet 2 lengths 0..8). Random: shapes edited / periodic / random / reversed / new<<old / old<<new / new-empty / old-empty / old<parts / new<parts / big-edited (up to 6 MiB), partitions 0..16, GOMAXPROCS {1,2,16}, schedules none / perturb / reverse on the bsdiff hooks; race-detector pass. lrufile: random Seek/Read programs against a plain in-memory model for chunk {1,2,3,7,64,4096} x entries {1,2,3,8}, files of 0..5 chunks ±1, with Reset onto a second file. distinct_nontrivial = exhaustive executions with old != new, both non-empty + distinct random/lru signatures",
+		ID:          "C12",
+		Level:       "exploration",
+		Rule:        "every execution of the real bsdiff DiffContext.Do is monitored: controls recorded from WriteMessageFunc are checked for a single trailing Eof and length accounting, applied by a reference applier, by the real PatchContext.Patch (through lrufile) and, from every control j (16 sampled above 64 controls), by a fresh IndividualPatchContext started at the saved old offset. Exhaustive: all (old,new) over alphabet 2 with lengths 0..6 and alphabet 3 with lengths 0..4 for partitions {0,1,2,3,5,8,16} (thorough: 0..16, plus alphabet 2 lengths 0..8). Random: shapes edited / periodic / random / reversed / new<<old / old<<new / new-empty / old-empty / old<parts / new<parts / big-edited (up to 6 MiB), partitions 0..16, GOMAXPROCS {1,2,16}, schedules none / perturb / reverse on the bsdiff hooks; race-detector pass. lrufile: random Seek/Read programs against a plain in-memory model for chunk {1,2,3,7,64,4096} x entries {1,2,3,8}, files of 0..5 chunks ±1, with Reset onto a second file. distinct_nontrivial = exhaustive executions with old != new, both non-empty + distinct random/lru signatures",
 		Assumptions: []string{"io.EOF returned together with the last bytes is treated as equivalent to io.EOF on the next read (both legal io.Reader behaviour)", "the position after a rejected out-of-range Seek is unspecified"},
-		Flavors: func(tier string) []string { return []string{"plain", "race"} },
-		Cases:   c12Cases,
-		Run:     c12Run,
-		Batch:   8,
-		CaseBudget: 600 * 1e9,
+		Flavors:     func(tier string) []string { return []string{"plain", "race"} },
+		Cases:       c12Cases,
+		Run:         c12Run,
+		Batch:       8,
+		CaseBudget:  600 * 1e9,
 		Exhaustive: func(tier string) (bool, string) {
 			return true, "exhaustive part only: all (old,new) pairs over the listed alphabets/lengths for the listed partition counts; random and lrufile parts are sampled"
 		},
